@@ -402,13 +402,159 @@ func sigInfoFields(si *spec.SignatureInfo) string {
 }
 
 // DataText: canonical text of a decoded Data (+ the signed portion reported by the parser).
+// gettersData / gettersInterest: what an application sees of a decoded packet is the ndn.Data /
+// ndn.Interest / ndn.Signature interface; every accessor must report the decoded field it stands for.
+// "" when they all do, else " getter=<name>".
+func gettersData(d *spec.Data) (out string) {
+	defer func() {
+		if recover() != nil {
+			out = " getter=PANIC"
+		}
+	}()
+	bad := func(f string) string { return " getter=" + f }
+	var x ndn.Data = d
+	if !x.Name().Equal(d.NameV) || (x.Name() == nil) != (d.NameV == nil) {
+		return bad("Name")
+	}
+	ct, fr, fb := x.ContentType(), x.Freshness(), x.FinalBlockID()
+	if d.MetaInfo == nil {
+		if ct != nil || fr != nil || fb != nil {
+			return bad("MetaInfo")
+		}
+	} else {
+		if (ct == nil) != (d.MetaInfo.ContentType == nil) || (ct != nil && uint64(*ct) != *d.MetaInfo.ContentType) {
+			return bad("ContentType")
+		}
+		if (fr == nil) != (d.MetaInfo.FreshnessPeriod == nil) || (fr != nil && *fr != *d.MetaInfo.FreshnessPeriod) {
+			return bad("Freshness")
+		}
+		if d.MetaInfo.FinalBlockID == nil {
+			if fb != nil {
+				return bad("FinalBlockID")
+			}
+		} else if c, err := enc.ComponentFromBytes(d.MetaInfo.FinalBlockID); err == nil {
+			if fb == nil || !fb.Equal(c) {
+				return bad("FinalBlockID")
+			}
+		}
+	}
+	if !bytes.Equal(x.Content().Join(), d.ContentV.Join()) {
+		return bad("Content")
+	}
+	sg := x.Signature()
+	if d.SignatureInfo == nil {
+		if sg.SigType() != ndn.SignatureNone || sg.KeyName() != nil {
+			return bad("SigType")
+		}
+	} else {
+		if uint64(sg.SigType()) != d.SignatureInfo.SignatureType {
+			return bad("SigType")
+		}
+		if d.SignatureInfo.KeyLocator == nil {
+			if sg.KeyName() != nil {
+				return bad("KeyName")
+			}
+		} else if !sg.KeyName().Equal(d.SignatureInfo.KeyLocator.Name) {
+			return bad("KeyName")
+		}
+		if vp := d.SignatureInfo.ValidityPeriod; vp != nil {
+			nb, e1 := time.Parse(spec.TimeFmt, vp.NotBefore)
+			na, e2 := time.Parse(spec.TimeFmt, vp.NotAfter)
+			gb, ga := sg.Validity()
+			if e1 == nil && e2 == nil && (gb == nil || ga == nil || !gb.Equal(nb) || !ga.Equal(na)) {
+				return bad("Validity")
+			}
+		}
+	}
+	if !bytes.Equal(sg.SigValue(), d.SignatureValue.Join()) {
+		return bad("SigValue")
+	}
+	return ""
+}
+
+func gettersInterest(i *spec.Interest) (out string) {
+	defer func() {
+		if recover() != nil {
+			out = " getter=PANIC"
+		}
+	}()
+	bad := func(f string) string { return " getter=" + f }
+	var x ndn.Interest = i
+	if !x.Name().Equal(i.NameV) {
+		return bad("Name")
+	}
+	if x.CanBePrefix() != i.CanBePrefixV {
+		return bad("CanBePrefix")
+	}
+	if x.MustBeFresh() != i.MustBeFreshV {
+		return bad("MustBeFresh")
+	}
+	fh := x.ForwardingHint()
+	if i.ForwardingHintV == nil {
+		if fh != nil {
+			return bad("ForwardingHint")
+		}
+	} else {
+		if len(fh) != len(i.ForwardingHintV.Names) {
+			return bad("ForwardingHint")
+		}
+		for k := range fh {
+			if !fh[k].Equal(i.ForwardingHintV.Names[k]) {
+				return bad("ForwardingHint")
+			}
+		}
+	}
+	if n := x.Nonce(); (n == nil) != (i.NonceV == nil) || (n != nil && *n != uint64(*i.NonceV)) {
+		return bad("Nonce")
+	}
+	if l := x.Lifetime(); (l == nil) != (i.InterestLifetimeV == nil) || (l != nil && *l != *i.InterestLifetimeV) {
+		return bad("Lifetime")
+	}
+	if h := x.HopLimit(); (h == nil) != (i.HopLimitV == nil) || (h != nil && uint64(*h) != uint64(*i.HopLimitV)) {
+		return bad("HopLimit")
+	}
+	if !bytes.Equal(x.AppParam().Join(), i.ApplicationParameters.Join()) {
+		return bad("AppParam")
+	}
+	sg := x.Signature()
+	if si := i.SignatureInfo; si == nil {
+		if sg.SigType() != ndn.SignatureNone || sg.KeyName() != nil || sg.SigNonce() != nil || sg.SigTime() != nil || sg.SigSeqNum() != nil {
+			return bad("Signature")
+		}
+	} else {
+		if uint64(sg.SigType()) != si.SignatureType {
+			return bad("SigType")
+		}
+		if si.KeyLocator == nil {
+			if sg.KeyName() != nil {
+				return bad("KeyName")
+			}
+		} else if !sg.KeyName().Equal(si.KeyLocator.Name) {
+			return bad("KeyName")
+		}
+		if !bytes.Equal(sg.SigNonce(), si.SignatureNonce) {
+			return bad("SigNonce")
+		}
+		if t := sg.SigTime(); (t == nil) != (si.SignatureTime == nil) || (t != nil && t.UnixMilli() != si.SignatureTime.Milliseconds()) {
+			return bad("SigTime")
+		}
+		if q := sg.SigSeqNum(); (q == nil) != (si.SignatureSeqNum == nil) || (q != nil && *q != *si.SignatureSeqNum) {
+			return bad("SigSeqNum")
+		}
+	}
+	if !bytes.Equal(sg.SigValue(), i.SignatureValue.Join()) {
+		return bad("SigValue")
+	}
+	return ""
+}
+
 func DataText(d *spec.Data, cov enc.Wire) string {
 	mi := "mi=-"
 	if d.MetaInfo != nil {
 		mi = "mi=" + optUText(d.MetaInfo.ContentType) + "|" + optDurText(d.MetaInfo.FreshnessPeriod) + "|" + bytesOrDashNil(d.MetaInfo.FinalBlockID)
 	}
 	return "D n=" + nameOrNil(d.NameV) + " " + mi + " c=" + hexOrNil(d.ContentV) + " " + sigInfoFields(d.SignatureInfo) +
-		" sv=" + hexOrNil(d.SignatureValue) + " cov=" + common.Hex(cov.Join())
+		" sv=" + hexOrNil(d.SignatureValue) + " cov=" + common.Hex(cov.Join()) + gettersData(d)
 }
 
 func InterestText(i *spec.Interest, cov enc.Wire) string {
@@ -431,7 +577,7 @@ func InterestText(i *spec.Interest, cov enc.Wire) string {
 	}
 	return "I n=" + nameOrNil(i.NameV) + " cbp=" + b(i.CanBePrefixV) + " mbf=" + b(i.MustBeFreshV) + " fh=" + fh + " nonce=" + nonce +
 		" lt=" + optDurText(i.InterestLifetimeV) + " hl=" + hl + " ap=" + hexOrNil(i.ApplicationParameters) + " " + sigInfoFields(i.SignatureInfo) +
-		" sv=" + hexOrNil(i.SignatureValue) + " cov=" + common.Hex(cov.Join())
+		" sv=" + hexOrNil(i.SignatureValue) + " cov=" + common.Hex(cov.Join()) + gettersInterest(i)
 }
 
 // ---------------------------------------------------------------- make / read
